@@ -105,7 +105,7 @@ func isCompletionData(t types.Type) bool {
 func litField(cl *ast.CompositeLit, name string) ast.Expr {
 	for _, el := range cl.Elts {
 		if kv, ok := el.(*ast.KeyValueExpr); ok {
-			if k, ok := kv.Key.(*ast.Ident); ok && k.Name == name {
+			if k, ok := kv.Key.(*ast.Ident); ok && canonId(k.Name) == name {
 				return kv.Value
 			}
 		}
